@@ -890,3 +890,108 @@ func ruleOPT6(c *Ctx) {
 		c.Check(ok, typ+".Evaluate / negates exactly when Negated and the value is a bool", p.Pos(fn.Pos()), "Value = !Value.Bool() under Negated && Kind()==Bool", "negation is applied without the flag, without the kind test, or not at all")
 	}
 }
+
+func init() {
+	register("OPT-15", "a condition node yields a value only from its memo or after evaluating its own operand", 2, ruleOPT15)
+}
+
+// OPT-15: in Expression.Evaluate and ExpressionAtom.Evaluate, a return without error that is not the memo hit on the
+// receiver's own Evaluated flag must follow an evaluation of one of the receiver's operands (left operand first for
+// binary nodes). A shortcut that answers from somewhere else (a sibling's memo, a cached table) skips the operand's
+// errors and makes the result depend on evaluation order.
+func ruleOPT15(c *Ctx) {
+	p := c.P
+	for _, tn := range []string{"Expression", "ExpressionAtom"} {
+		top := p.Method("ast", tn, "Evaluate")
+		if top == nil {
+			c.AnchorLost(tn + ".Evaluate")
+			continue
+		}
+		evF := p.Field("ast", tn, "Evaluated")
+		isZero := func(v ssa.Value) bool {
+			if k, ok := v.(*ssa.Const); ok {
+				return k.Value == nil
+			}
+			if ld, ok := v.(*ssa.UnOp); ok && ld.Op == token.MUL {
+				if al, ok := ld.X.(*ssa.Alloc); ok {
+					for _, r := range *al.Referrers() {
+						if _, isStore := r.(*ssa.Store); isStore {
+							return false
+						}
+					}
+					return true
+				}
+			}
+			return false
+		}
+		// analyse returns the offending return (nil when the function satisfies the rule) and the number of operand evaluations seen.
+		var analyse func(fn *ssa.Function, depth int) (ssa.Instruction, []*ssa.BasicBlock, int)
+		analyse = func(fn *ssa.Function, depth int) (ssa.Instruction, []*ssa.BasicBlock, int) {
+			recv := ssa.Value(receiver(fn))
+			n := 0
+			isOperandEval := func(in ssa.Instruction) bool {
+				call, ok := in.(*ssa.Call)
+				if !ok || len(call.Call.Args) == 0 || call.Call.IsInvoke() {
+					return false
+				}
+				callee := call.Call.StaticCallee()
+				if callee == nil {
+					return false
+				}
+				if f, base := fieldLoad(call.Call.Args[0]); f != nil && base == recv && strings.HasPrefix(callee.Name(), "Evaluate") {
+					return true
+				}
+				// delegation: a helper method of the same node that itself satisfies the rule
+				if call.Call.Args[0] == recv && callee != fn && callee.Blocks != nil && depth < 2 && callee.Signature.Results().Len() == fn.Signature.Results().Len() {
+					if t, _, k := analyse(callee, depth+1); t == nil && k > 0 {
+						return true
+					}
+				}
+				return false
+			}
+			for _, b := range fn.Blocks {
+				for _, in := range b.Instrs {
+					if isOperandEval(in) {
+						n++
+					}
+				}
+			}
+			t, path := reach(fn, nil, func(in ssa.Instruction) bool {
+				r, ok := in.(*ssa.Return)
+				if !ok || returnsNonNilError(r) {
+					return false
+				}
+				first, _ := returnOperandsThroughAllocs(r)
+				if first == nil && len(r.Results) > 0 {
+					first = r.Results[0]
+				}
+				return !isZero(first)
+			}, isOperandEval, func(b *ssa.BasicBlock, si int) bool {
+				iff, isIf := b.Instrs[len(b.Instrs)-1].(*ssa.If)
+				if !isIf {
+					return true
+				}
+				kind, sTrue, okc := condOn(iff.Cond, func(v ssa.Value) bool {
+					f, base := fieldLoad(v)
+					return f == evF && base == recv
+				})
+				if okc && kind == "bool" {
+					return si != sTrue // the memo hit is the one accepted shortcut
+				}
+				return true
+			})
+			return t, path, n
+		}
+		t, path, n := analyse(top, 0)
+		if n == 0 {
+			c.Fail(tn+".Evaluate / operand evaluations", p.Pos(top.Pos()), "no evaluation of a receiver operand found (anchor lost)")
+			continue
+		}
+		construct := tn + ".Evaluate / no value without evaluating an own operand"
+		if t == nil {
+			c.OK(construct, p.Pos(top.Pos()), fmt.Sprintf("every non-memo success return with a value follows one of %d operand evaluations", n))
+		} else {
+			c.Fail(construct, p.InstrPos(t), "a value is returned without error although neither the node's own memo was hit nor any of its operands was evaluated: operand errors are skipped and the answer depends on what other nodes happen to remember", pathString(p, path)...)
+		}
+	}
+}
